@@ -23,7 +23,8 @@ META = {
         ' (arity) operand underflow and unmatched filters are turned into '
         'FormulaError; (num) the numeric-literal regex language is contained '
         'in the domain of the conversion Number.compile applies.'
-        ' (adjacent) both adjacent-operand guards test the whole Operand family.'),
+        ' (adjacent) both adjacent-operand guards test the whole Operand family.'
+        ' (drain) after the last token the operator stack is walked by a loop that raises on a left-over parenthesis; (num, ascii) the Number regex has no Unicode digit category.'),
     'not_decided': (
         'Termination, rejection of every malformed string, and exceptions '
         'raised implicitly by library code outside the implicit-raiser table.'),
@@ -710,6 +711,38 @@ def rule_drain(ctx):
                 st.value.func.value.args[0].value == ')' and len(
                 st.value.args) >= 2 and isinstance(st.value.args[1], ast.Name):
             close = (i, st.value.args[1].id)
+        elif isinstance(st, ast.Expr) and isinstance(st.value, ast.Call) and \
+                isinstance(st.value.func, ast.Attribute) and \
+                st.value.func.attr == 'ast' and isinstance(
+                st.value.func.value, ast.Call) and call_name(
+                st.value.func.value) == 'Parenthesis' and \
+                st.value.func.value.args and isinstance(
+                st.value.func.value.args[0], ast.Constant) and \
+                st.value.func.value.args[0].value == ')':
+            # arguments passed as a bundle (`.ast(*state)`): the stack is
+            # whatever the next statements hand to a helper that pops it
+            for st2 in f.node.body[i + 1:]:
+                for x in ast.walk(st2):
+                    if isinstance(x, ast.Call) and isinstance(
+                            x.func, (ast.Name, ast.Attribute)):
+                        r_ = ctx.cg.resolve_name_expr(f, x.func)
+                        if r_ and r_[0] == 'func':
+                            h = r_[1]
+                            hp = h.params[1:] if (h.cls is not None and not any(
+                                isinstance(d, ast.Name) and
+                                d.id == 'staticmethod'
+                                for d in h.decorators())) else h.params
+                            for j_, a in enumerate(x.args):
+                                if isinstance(a, ast.Name) and j_ < len(hp) \
+                                        and any(isinstance(c, ast.Call) and
+                                                isinstance(c.func,
+                                                           ast.Attribute) and
+                                                c.func.attr == 'pop' and
+                                                isinstance(c.func.value,
+                                                           ast.Name) and
+                                                c.func.value.id == hp[j_]
+                                                for c in ast.walk(h.node)):
+                                    close = close or (i, a.id)
     if close is None:
         raise AnalysisError('Parser.ast: the closing parenthesis pushed at the '
                             'end of the input was not found')
@@ -734,6 +767,44 @@ def rule_drain(ctx):
                     'the input no longer raises for a left-over opening '
                     'parenthesis', file=f.module.rel, function=f.qualname,
                     line=lp.lineno)
+    elif any(isinstance(x, ast.Call) and any(
+            isinstance(a, ast.Name) and a.id == stack
+            for a in list(x.args) + [k.value for k in x.keywords])
+            for st in rest for x in ast.walk(st)):
+        # the stack is handed to a helper: the loop may live there
+        drained = False
+        for st in rest:
+            for x in ast.walk(st):
+                if not (isinstance(x, ast.Call) and isinstance(
+                        x.func, (ast.Name, ast.Attribute))):
+                    continue
+                pos = [i_ for i_, a in enumerate(x.args) if isinstance(
+                    a, ast.Name) and a.id == stack]
+                r_ = ctx.cg.resolve_name_expr(f, x.func)
+                if not pos or not r_ or r_[0] != 'func':
+                    continue
+                h = r_[1]
+                if pos[0] >= len(h.params):
+                    continue
+                prm = h.params[pos[0]]
+                for lp in own_nodes(h):
+                    if isinstance(lp, (ast.While, ast.For)) and any(
+                            isinstance(c, ast.Call) and isinstance(
+                                c.func, ast.Attribute) and
+                            c.func.attr == 'pop' and isinstance(
+                                c.func.value, ast.Name) and
+                            c.func.value.id == prm for c in ast.walk(lp)):
+                        drained = True
+        raises = any(isinstance(x, ast.Raise) for st in tests
+                     for x in ast.walk(st))
+        if drained and raises:
+            rr.ok('Parser.ast has a helper walk the stack after the last token '
+                  'and raises if anything is left', '%s:%d' % (
+                      f.module.rel, tests[0].lineno))
+        else:
+            raise AnalysisError('Parser.ast: the operator stack is handed to a '
+                                'helper after the last token; what it does '
+                                'with it was not recognised')
     elif tests:
         rr.fail(key_of(f, 'only the top of the stack examined'),
                 'after the last token Parser.ast tests `%s` once instead of '
